@@ -61,7 +61,8 @@ def run(ck: Check) -> int:
     ck.rule('R: points a*G for a in {0 (infinity),1,2,3,r-1,large} (thorough adds r-2 and more large) in G1 and G2; '
             'all pairs for ADD, all (point, scalar) for MUL, all triples over {0..3} for associativity, distributivity over '
             '{0..3}^2 x scalars; Fr boundary values incl. non-canonical and negative; pairing lists with 0..3 (thorough 4) '
-            'pairs incl. infinity; class = (kind, group, operand scalar names | fr op | pairing shape, clause)')
+            'pairs incl. infinity; PAIRING_CHECK additionally on every single pair over {0,1,2,-1}^2 and on lists of length 2..3 (4 in thorough) '
+            'with an infinity pair at every position preceded / followed by pairs that do and do not change the verdict (oracle: bilinearity rule); class = (kind, group, operand scalar names | fr op | pairing shape, clause)')
     chunks = K.enumerate_cases(ck.tier, ck.seed)
     ck.bound('elementary_cases', sum(len(c) for c in chunks))
     ck.bound('pairing_lists', sum(1 for c in chunks if c[0]['k'] == 'pairing'))
